@@ -36,8 +36,25 @@ for f in sorted(glob.glob(os.path.join(ROOT, 'evidence', 'C*.json'))):
     costs += '| %s | %s | %s | %s |\n' % (e['property_id'], q.get('evaluations', e['coverage']['evaluations'] if e['tier'] == 'quick' else '-'), q.get('distinct_nontrivial', e['coverage']['distinct_nontrivial'] if e['tier'] == 'quick' else '-'), q.get('wall_s', e['wall_s'] if e['tier'] == 'quick' else '-'))
 if sil.get('_note'):
     costs += '\n' + sil['_note'] + '\n'
+mut = ''
+mp = os.path.join(ROOT, 'mutants', 'results.json')
+if os.path.exists(mp):
+    R = json.load(open(mp))
+    from collections import Counter
+    c = Counter(('killed by the existing tests' if v['status'].startswith('killed') else v['status']) for v in R.values())
+    mut = 'Outcome: %d mutants; %d are killed by the existing test-suite (so they are not "realistic" in the sense of this task and say nothing about the checks), %d survive the suite and are **caught** by the quick check of their property, %d survive both.\n\n' % (len(R), c.get('killed by the existing tests', 0), c.get('caught', 0), c.get('SURVIVED', 0))
+    mut += '| mutant | property | change | outcome |\n|---|---|---|---|\n'
+    for k in sorted(R):
+        v = R[k]
+        if v['status'].startswith('killed'):
+            continue
+        mut += '| %s | %s | %s | %s%s |\n' % (k, v['prop'], v['why'].replace('|', '/'), v['status'], (' in %ss' % v['seconds']) if 'seconds' in v else '')
+    notes = os.path.join(ROOT, 'mutants', 'survivor_notes.md')
+    if os.path.exists(notes):
+        mut += '\n' + open(notes).read().strip() + '\n'
 p = os.path.join(ROOT, 'DESIGN.md')
 s = open(p).read()
+s = re.sub(r'<!-- MUTANTS-BEGIN -->.*?<!-- MUTANTS-END -->', lambda _: '<!-- MUTANTS-BEGIN -->\n' + mut + '<!-- MUTANTS-END -->', s, flags=re.S)
 s = re.sub(r'<!-- SEEDED-MATRIX-BEGIN -->.*?<!-- SEEDED-MATRIX-END -->', lambda _: '<!-- SEEDED-MATRIX-BEGIN -->\n' + matrix + '\n<!-- SEEDED-MATRIX-END -->', s, flags=re.S)
 s = re.sub(r'<!-- COSTS-BEGIN -->.*?<!-- COSTS-END -->', lambda _: '<!-- COSTS-BEGIN -->\n' + costs + '<!-- COSTS-END -->', s, flags=re.S)
 open(p, 'w').write(s)
